@@ -1,5 +1,6 @@
 import EpModel.Lemmas.Io
 import EpModel.Lemmas.IoSkip
+import EpModel.Lemmas.IoSkipSeek
 import EpModel.Model.IoBuild
 import EpModel.Model.BuilderIo
 import EpModel.Props.C08Link
@@ -33,6 +34,12 @@ import EpModel.Props.C10
                         `skip_all_header_extensions` on a Read + Seek reader)  Ok iff every byte of the
                         skipped header(s) lies in front of the failure position / end of the data; then the
                         reader stands exactly behind them; otherwise the reader's own error
+    skip_ext_sf_* / skip_all_sf_*   the same two functions over a reader whose j-th `seek` call fails
+                        (`SReader`, `skipExtSf`, `skipAllSf`): a seek failure that is not in reach changes
+                        nothing (the old theorems carry over); a seek failure in reach is returned as the seek
+                        error, with the reader where it stood before that seek and no call behind it; `Ok` only
+                        if every read and every seek of the whole chain succeeded; the first failing call in
+                        program order decides which error is returned
     gbuilder_*          over the GENERAL builder model EpModel/Model/Builder.lean (every builder path,
                         C10): Space(required) exactly for cap < size with required = size = length of the
                         complete packet; `write` against a writer failing at byte k, for every way of
@@ -666,6 +673,245 @@ theorem skip_all_error (r : Reader) (nh : Nat) :
 
 end skip
 
+/-! ## Read + Seek skipping over a reader whose `seek` fails -/
+
+section skip_seek
+open EpModel.Io.Skip EpModel.Lemmas.IoSkip EpModel.Lemmas.IoSkipSeek
+
+/-- **`skip_header_extension`, the failing seek is not this call** (no seek fails at all:
+    `sf = none`, or the failing index is another one: `sf ≠ some c` with `c` the number of seek
+    calls made before): reader and result are those of the function whose seek never fails, so
+    `skip_header_extension` / `skip_header_extension_ok_iff` describe them; the counter grows by one
+    exactly when the first read succeeded (that is when `seek` is called). -/
+theorem skip_ext_sf_unreached (rd : Reader) (c : Nat) (sf : Option Nat) (nh : Nat)
+    (hsf : sf ≠ some c) :
+    (skipExtSf { rd := rd, seeks := c, seekFail := sf } nh).1.rd = (skipHeaderExtension rd nh).1 ∧
+    (skipExtSf { rd := rd, seeks := c, seekFail := sf } nh).2 = liftRes (skipHeaderExtension rd nh).2 ∧
+    (skipExtSf { rd := rd, seeks := c, seekFail := sf } nh).1.seekFail = sf ∧
+    (skipExtSf { rd := rd, seeks := c, seekFail := sf } nh).1.seeks =
+      c + (match kindOf nh with
+           | none => 0
+           | some kind => if rd.pos + kind.firstRead ≤ rd.limit then 1 else 0) := by
+  cases hk : kindOf nh with
+  | none =>
+    rw [skipExtSf_not_skippable _ nh hk]
+    have : ¬ isSkippable nh := fun h => by
+      obtain ⟨k, hk'⟩ := (isSkippable_iff nh).1 h
+      rw [hk] at hk'; cases hk'
+    rw [not_skippable rd nh this]
+    exact ⟨rfl, rfl, rfl, rfl⟩
+  | some kind =>
+    by_cases h1 : rd.pos + kind.firstRead ≤ rd.limit
+    · rw [skipExtSf_seek_ok rd c sf nh kind hk h1 hsf]
+      exact ⟨rfl, rfl, rfl, by simp [h1]⟩
+    · rw [skipExtSf_first_read_fails rd c sf nh kind hk h1]
+      exact ⟨rfl, rfl, rfl, by simp [h1]⟩
+
+/-- **`skip_header_extension`, this seek call is the failing one** (`c` seek calls were made
+    before, the call with index `c` fails), for a skippable next header:
+    * if the first read (1 byte of a fragment header, 2 bytes otherwise) succeeds, the seek is
+      reached: the result is the seek error — never `Ok`, never a read error —, the reader stands
+      exactly behind the bytes of the first read (the failed seek did not move it, and no read
+      followed), and exactly one more seek call was made;
+    * if the first read fails, the seek is not reached: the reader's own error, as before. -/
+theorem skip_ext_sf_reached (rd : Reader) (c : Nat) (nh : Nat) (kind : Kind)
+    (hk : kindOf nh = some kind) :
+    (rd.pos + kind.firstRead ≤ rd.limit →
+      skipExtSf { rd := rd, seeks := c, seekFail := some c } nh =
+        ({ rd := { data := rd.data, pos := rd.pos + kind.firstRead, failAt := rd.failAt },
+           seeks := c + 1, seekFail := some c }, .error .seek)) ∧
+    (¬ rd.pos + kind.firstRead ≤ rd.limit →
+      skipExtSf { rd := rd, seeks := c, seekFail := some c } nh =
+        ({ rd := (skipHeaderExtension rd nh).1, seeks := c, seekFail := some c },
+         .error (.io rd.dryError))) := by
+  refine ⟨skipExtSf_seek_fails rd c nh kind hk, fun h1 => ?_⟩
+  rw [skipExtSf_first_read_fails rd c (some c) nh kind hk h1]
+  have hcut : ¬ rd.pos + hdrLen kind rd.data rd.pos ≤ rd.limit := by
+    have := firstRead_le_hdrLen kind rd.data rd.pos
+    omega
+  rw [(skip_err rd nh kind hk hcut).1]
+  rfl
+
+/-- the reader of the property (start of the data, read failure at byte `k`, the `j`-th seek
+    fails): `Ok` ⇔ the whole header lies in front of the failure position and the end of the
+    data AND the one seek call of the function is not the failing one. -/
+theorem skip_ext_sf_ok_iff (data : Bytes) (k j nh : Nat) (kind : Kind) (hk : kindOf nh = some kind) :
+    (∃ n, (skipExtSf { rd := { data := data, pos := 0, failAt := some k }, seeks := 0,
+                       seekFail := some j } nh).2 = .ok n) ↔
+      hdrLen kind data 0 ≤ k ∧ hdrLen kind data 0 ≤ data.length ∧ j ≠ 0 := by
+  have hl : Reader.limit { data := data, pos := 0, failAt := some k } = min k data.length := rfl
+  have hfl := firstRead_le_hdrLen kind data 0
+  by_cases hj : j = 0
+  · subst hj
+    constructor
+    · rintro ⟨n, hn⟩
+      by_cases h1 : (0 : Nat) + kind.firstRead ≤ min k data.length
+      · rw [(skip_ext_sf_reached _ 0 nh kind hk).1 (by rw [hl]; exact h1)] at hn; cases hn
+      · rw [(skip_ext_sf_reached _ 0 nh kind hk).2 (by rw [hl]; exact h1)] at hn; cases hn
+    · intro h; exact absurd rfl h.2.2
+  · have hsf : (some j : Option Nat) ≠ some 0 := by
+      intro h; cases h; exact hj rfl
+    rw [(skip_ext_sf_unreached _ 0 (some j) nh hsf).2.1]
+    have hiff := skip_header_extension_ok_iff data k nh kind hk
+    constructor
+    · rintro ⟨n, hn⟩
+      cases hr : (skipHeaderExtension { data := data, pos := 0, failAt := some k } nh).2 with
+      | error e => rw [hr] at hn; cases hn
+      | ok m =>
+        obtain ⟨a, b⟩ := hiff.1 ⟨m, hr⟩
+        exact ⟨a, b, hj⟩
+    · rintro ⟨a, b, _⟩
+      obtain ⟨n, hn⟩ := hiff.2 ⟨a, b⟩
+      exact ⟨n, by rw [hn]; rfl⟩
+
+/-- **`skip_all_header_extensions`, no seek failure**: with `seekFail = none` the new function is
+    the old one (same reader, same result), so `skip_all_ok` / `skip_all_complete` /
+    `skip_all_error` describe it. -/
+theorem skip_all_sf_free (rd : Reader) (c nh : Nat) :
+    (skipAllSf { rd := rd, seeks := c, seekFail := none } nh).1.rd = (skipAll rd nh).1 ∧
+    (skipAllSf { rd := rd, seeks := c, seekFail := none } nh).2 = liftRes (skipAll rd nh).2 ∧
+    (skipAllSf { rd := rd, seeks := c, seekFail := none } nh).1.seekFail = none ∧
+    c ≤ (skipAllSf { rd := rd, seeks := c, seekFail := none } nh).1.seeks := by
+  obtain ⟨⟨h1, h2, h3, _, _⟩, hun, _⟩ := skipAllSf_spec rd nh c none
+  refine ⟨h1, h2, ?_, h3⟩
+  rw [hun (fun j hj => by cases hj)]
+
+/-- how many seek calls the loop makes when no seek fails (`n` below; the calls have the indices
+    `c … n - 1`), in terms of the data: a run that ends `Ok` made one call per skipped header; a run
+    that ends in a read error inside header number `m` made `m` calls for the complete headers
+    in front of it, plus one if the first read of the cut header still succeeded (the error then
+    comes from the read behind that seek). -/
+theorem skip_all_sf_seek_calls (rd : Reader) (c nh : Nat) :
+    (∀ f, (skipAll rd nh).2 = .ok f →
+      ∃ m, Steps rd.data rd.limit nh rd.pos m f (skipAll rd nh).1.pos ∧
+        (skipAllSf { rd := rd, seeks := c, seekFail := none } nh).1.seeks = c + m) ∧
+    (∀ e, (skipAll rd nh).2 = .error e →
+      ∃ m nh' pos' kind, Steps rd.data rd.limit nh rd.pos m nh' pos' ∧ kindOf nh' = some kind ∧
+        ¬ pos' + hdrLen kind rd.data pos' ≤ rd.limit ∧
+        (skipAllSf { rd := rd, seeks := c, seekFail := none } nh).1.seeks =
+          c + m + (if pos' + kind.firstRead ≤ rd.limit then 1 else 0)) := by
+  obtain ⟨⟨_, _, h3, h4, h5⟩, _, _⟩ := skipAllSf_spec rd nh c none
+  refine ⟨fun f hf => ⟨_, h4 f hf, ?_⟩, h5⟩
+  show (freeRun rd c nh).1.seeks = c + ((freeRun rd c nh).1.seeks - c)
+  omega
+
+/-- **the failing seek is not in reach** — its index `j` lies in front of the calls of this run
+    (`j < c`) or the run in which no seek fails ends (with `Ok` or with a read error) before its
+    `j`-th seek call: reader, counter and result are those of the run in which no seek fails, i.e.
+    those of the old function.  So every existing theorem carries over, and a read error that comes
+    first in program order is the error that is returned. -/
+theorem skip_all_sf_unreached (rd : Reader) (c nh j : Nat)
+    (h : j < c ∨ (skipAllSf { rd := rd, seeks := c, seekFail := none } nh).1.seeks ≤ j) :
+    (skipAllSf { rd := rd, seeks := c, seekFail := some j } nh).1.rd = (skipAll rd nh).1 ∧
+    (skipAllSf { rd := rd, seeks := c, seekFail := some j } nh).2 = liftRes (skipAll rd nh).2 ∧
+    (skipAllSf { rd := rd, seeks := c, seekFail := some j } nh).1.seeks =
+      (skipAllSf { rd := rd, seeks := c, seekFail := none } nh).1.seeks ∧
+    (skipAllSf { rd := rd, seeks := c, seekFail := some j } nh).1.seekFail = some j := by
+  obtain ⟨⟨h1, h2, _, _, _⟩, hun, _⟩ := skipAllSf_spec rd nh c (some j)
+  rw [hun (fun j' hj' => by cases hj'; exact h)]
+  exact ⟨h1, h2, rfl, rfl⟩
+
+/-- **the failing seek is in reach** — the run in which no seek fails makes a seek call with
+    index `j` (`c ≤ j <` its final counter; every read in front of that call succeeds, because that
+    run got there): the result is the seek error — never `Ok`, never a read error, although a read
+    behind it might fail as well —; exactly `j + 1 - c` seek calls were made, the failing one being
+    the last; and the reader is in the state of the failing call: `j - c` complete headers were
+    skipped, the first read of the next header (`kind.firstRead` bytes at `pos'`) was made, the seek
+    did not move the reader and nothing was read behind it. -/
+theorem skip_all_sf_reached (rd : Reader) (c nh j : Nat) (hcj : c ≤ j)
+    (hjn : j < (skipAllSf { rd := rd, seeks := c, seekFail := none } nh).1.seeks) :
+    ∃ nh' pos' kind, Steps rd.data rd.limit nh rd.pos (j - c) nh' pos' ∧
+      kindOf nh' = some kind ∧ pos' + kind.firstRead ≤ rd.limit ∧
+      skipAllSf { rd := rd, seeks := c, seekFail := some j } nh =
+        ({ rd := { data := rd.data, pos := pos' + kind.firstRead, failAt := rd.failAt },
+           seeks := j + 1, seekFail := some j }, .error .seek) :=
+  (skipAllSf_spec rd nh c (some j)).2.2 j rfl hcj hjn
+
+/-- **`Ok` only if every read and every seek of the whole chain succeeded** (strengthening of
+    `skip_all_ok`): an `Ok(f)` means that `m` skippable extension headers, every one completely
+    inside the bytes the reader can hand out, lead from the start to the header `f`, which is not
+    skippable (a `Chain`, so every read succeeded); that exactly `m` seek calls were made — the
+    calls `c … c + m - 1` — and that the failing seek call, if there is one, is none of them; the
+    reader stands behind the last header and the old function returns the same. -/
+theorem skip_all_sf_ok (rd : Reader) (c : Nat) (sf : Option Nat) (nh f : Nat)
+    (h : (skipAllSf { rd := rd, seeks := c, seekFail := sf } nh).2 = .ok f) :
+    ∃ m, Steps rd.data rd.limit nh rd.pos m f
+        (skipAllSf { rd := rd, seeks := c, seekFail := sf } nh).1.rd.pos ∧
+      ¬ isSkippable f ∧
+      Chain rd.data rd.limit nh rd.pos f (skipAllSf { rd := rd, seeks := c, seekFail := sf } nh).1.rd.pos ∧
+      (skipAllSf { rd := rd, seeks := c, seekFail := sf } nh).1.seeks = c + m ∧
+      (∀ j, sf = some j → j < c ∨ c + m ≤ j) ∧
+      skipAll rd nh = ((skipAllSf { rd := rd, seeks := c, seekFail := sf } nh).1.rd, .ok f) := by
+  obtain ⟨⟨h1, h2, h3, h4, _⟩, hun, hre⟩ := skipAllSf_spec rd nh c sf
+  have hfree : ∀ j, sf = some j → j < c ∨ (freeRun rd c nh).1.seeks ≤ j := by
+    intro j hj
+    by_cases hc : j < c
+    · exact Or.inl hc
+    · by_cases hn : (freeRun rd c nh).1.seeks ≤ j
+      · exact Or.inr hn
+      · obtain ⟨_, _, _, _, _, _, hres⟩ := hre j hj (by omega) (by omega)
+        rw [hres] at h; cases h
+  rw [hun hfree] at h ⊢
+  dsimp only at h ⊢
+  have hold : (skipAll rd nh).2 = .ok f := by
+    rw [h2] at h
+    cases hr : (skipAll rd nh).2 with
+    | error e => rw [hr] at h; cases h
+    | ok g => rw [hr] at h; cases h; rfl
+  have hst := h4 f hold
+  rw [h1]
+  refine ⟨_, hst, ?_, ?_, by omega, fun j hj => ?_, ?_⟩
+  · exact (skip_all_ok rd nh f hold).2.1
+  · exact (skip_all_ok rd nh f hold).1
+  · rcases hfree j hj with hc | hc
+    · exact Or.inl hc
+    · right; omega
+  · rw [← hold]
+
+/-- **which error, decided by the first failing call in program order.**  The run in which no
+    seek fails is the program order of the calls: it makes the seek calls `c … n - 1` and then ends,
+    with `Ok` or with the first read that fails.  An error of the new function is
+    * the seek error exactly when the failing index `j` is one of `c … n - 1` — that seek call
+      comes before the read that fails (if any read fails at all);
+    * otherwise the read error of the old function (the reader's own error: injected when it
+      fails inside the data, `UnexpectedEof` when the data ends), returned with the reader of the
+      old function — that read comes before the `j`-th seek call, which is never made.
+    There is no other error and no way to get `Ok` out of a run in which a call failed. -/
+theorem skip_all_sf_error (rd : Reader) (c : Nat) (sf : Option Nat) (nh : Nat) :
+    ((skipAllSf { rd := rd, seeks := c, seekFail := sf } nh).2 = .error .seek ↔
+      ∃ j, sf = some j ∧ c ≤ j ∧ j < (skipAllSf { rd := rd, seeks := c, seekFail := none } nh).1.seeks) ∧
+    (∀ e, (skipAllSf { rd := rd, seeks := c, seekFail := sf } nh).2 = .error (.io e) →
+      e = rd.dryError ∧
+      skipAll rd nh = ((skipAllSf { rd := rd, seeks := c, seekFail := sf } nh).1.rd, .error e) ∧
+      (∀ j, sf = some j → j < c ∨ (skipAllSf { rd := rd, seeks := c, seekFail := sf } nh).1.seeks ≤ j)) := by
+  obtain ⟨⟨h1, h2, h3, _, _⟩, hun, hre⟩ := skipAllSf_spec rd nh c sf
+  by_cases hin : ∃ j, sf = some j ∧ c ≤ j ∧ j < (freeRun rd c nh).1.seeks
+  · obtain ⟨j, hj, hcj, hjn⟩ := hin
+    obtain ⟨_, _, _, _, _, _, hres⟩ := hre j hj hcj hjn
+    rw [hres]
+    exact ⟨⟨fun _ => ⟨j, hj, hcj, hjn⟩, fun _ => rfl⟩, fun e he => by cases he⟩
+  · have hfree : ∀ j, sf = some j → j < c ∨ (freeRun rd c nh).1.seeks ≤ j := by
+      intro j hj
+      by_cases hc : j < c
+      · exact Or.inl hc
+      · by_cases hn : (freeRun rd c nh).1.seeks ≤ j
+        · exact Or.inr hn
+        · exact absurd ⟨j, hj, by omega, by omega⟩ hin
+    rw [hun hfree]
+    dsimp only
+    rw [h1, h2]
+    refine ⟨⟨fun h => ?_, fun h => absurd h hin⟩, fun e he => ?_⟩
+    · cases hr : (skipAll rd nh).2 with
+      | error e => rw [hr] at h; cases h
+      | ok g => rw [hr] at h; cases h
+    · have hold : (skipAll rd nh).2 = .error e := by
+        cases hr : (skipAll rd nh).2 with
+        | error e' => rw [hr] at he; cases he; rfl
+        | ok g => rw [hr] at he; cases he
+      exact ⟨(skip_all_error rd nh).1 e hold, by rw [← hold], hfree⟩
+
+end skip_seek
+
 /-! ## PacketBuilder, every path (general builder model of C10) -/
 
 section gbuilder
@@ -879,6 +1125,101 @@ example : (skipHeaderExtension { data := sampleChain.take 15, pos := 8, failAt :
     .error .unexpectedEof := rfl
 example : (skipHeaderExtension { data := sampleChain, pos := 8, failAt := some 16 } 44) =
     ({ data := sampleChain, pos := 16, failAt := some 16 }, .ok 17) := rfl
+end
+
+-- a reader whose seek fails, on the same chain hop-by-hop (8 bytes) → fragment (8 bytes) → UDP:
+-- the 0-th seek (inside the hop-by-hop header) fails, the 1-st seek (inside the fragment header)
+-- fails, the 2-nd seek is never called; a read failure that comes before the failing seek wins
+section
+open EpModel.Io.Skip EpModel.Lemmas.IoSkip EpModel.Lemmas.IoSkipSeek
+
+/-- the reader of `io.skip.*.sf`: `sampleChain`, read failure at byte `k`, the `j`-th seek fails -/
+def sampleSf (k : Nat) (j : Option Nat) : SReader :=
+  { rd := { data := sampleChain, pos := 0, failAt := some k }, seeks := 0, seekFail := j }
+
+-- one header: the seek call of `skip_header_extension` fails / is not the failing one
+example : skipExtSf { rd := { data := sampleChain, pos := 8, failAt := some 16 }, seeks := 0,
+                      seekFail := some 0 } 44 =
+    ({ rd := { data := sampleChain, pos := 9, failAt := some 16 }, seeks := 1, seekFail := some 0 },
+     .error .seek) := rfl
+example : skipExtSf { rd := { data := sampleChain, pos := 8, failAt := some 16 }, seeks := 0,
+                      seekFail := some 1 } 44 =
+    ({ rd := { data := sampleChain, pos := 16, failAt := some 16 }, seeks := 1, seekFail := some 1 },
+     .ok 17) := rfl
+-- the first read fails: the failing seek is not reached, the read error is returned
+example : skipExtSf { rd := { data := sampleChain, pos := 8, failAt := some 8 }, seeks := 0,
+                      seekFail := some 0 } 44 =
+    ({ rd := { data := sampleChain, pos := 8, failAt := some 8 }, seeks := 0, seekFail := some 0 },
+     .error (.io .injected)) := rfl
+example : (∃ n, (skipExtSf { rd := { data := sampleChain, pos := 0, failAt := some 8 }, seeks := 0,
+                             seekFail := some 1 } 0).2 = .ok n) :=
+  (skip_ext_sf_ok_iff sampleChain 8 1 0 .generic rfl).2 (by decide)
+
+-- the run in which no seek fails makes two seek calls (hypotheses of skip_all_sf_reached /
+-- skip_all_sf_unreached are satisfiable: 0 ≤ 0 < 2, 0 ≤ 1 < 2, 2 ≤ 2)
+theorem sampleSf_free : skipAllSf (sampleSf 16 none) 0 =
+    ({ rd := { data := sampleChain, pos := 16, failAt := some 16 }, seeks := 2, seekFail := none },
+     .ok 17) := by
+  rw [skipAllSf_step (sampleSf 16 none) 0 (by decide)
+    { rd := { data := sampleChain, pos := 8, failAt := some 16 }, seeks := 1, seekFail := none } 44 rfl]
+  rw [skipAllSf_step _ 44 (by decide)
+    { rd := { data := sampleChain, pos := 16, failAt := some 16 }, seeks := 2, seekFail := none } 17 rfl]
+  exact skipAllSf_stop _ 17 (by decide)
+
+-- the 0-th seek fails: behind the two bytes of the first read, one seek call, nothing else
+example : skipAllSf (sampleSf 16 (some 0)) 0 =
+    ({ rd := { data := sampleChain, pos := 2, failAt := some 16 }, seeks := 1, seekFail := some 0 },
+     .error .seek) :=
+  skipAllSf_err (sampleSf 16 (some 0)) 0 (by decide) _ _ rfl
+
+-- the 1-st seek fails: the hop-by-hop header is skipped, one byte of the fragment header is read
+example : skipAllSf (sampleSf 16 (some 1)) 0 =
+    ({ rd := { data := sampleChain, pos := 9, failAt := some 16 }, seeks := 2, seekFail := some 1 },
+     .error .seek) := by
+  rw [skipAllSf_step (sampleSf 16 (some 1)) 0 (by decide)
+    { rd := { data := sampleChain, pos := 8, failAt := some 16 }, seeks := 1, seekFail := some 1 } 44 rfl]
+  exact skipAllSf_err _ 44 (by decide) _ _ rfl
+
+-- … which is what skip_all_sf_reached says (its hypotheses hold: 0 ≤ 1 < 2)
+example : ∃ nh' pos' kind, Steps sampleChain 16 0 0 1 nh' pos' ∧ kindOf nh' = some kind ∧
+    pos' + kind.firstRead ≤ 16 ∧
+    skipAllSf (sampleSf 16 (some 1)) 0 =
+      ({ rd := { data := sampleChain, pos := pos' + kind.firstRead, failAt := some 16 },
+         seeks := 2, seekFail := some 1 }, .error .seek) :=
+  skip_all_sf_reached { data := sampleChain, pos := 0, failAt := some 16 } 0 0 1 (by decide)
+    (by have := sampleSf_free; unfold sampleSf at this; rw [this]; decide)
+
+-- the 2-nd seek would fail, but the chain has only two headers: not in reach, `Ok` as before
+example : (skipAllSf (sampleSf 16 (some 2)) 0).2 = .ok 17 := by
+  have h := (skip_all_sf_unreached { data := sampleChain, pos := 0, failAt := some 16 } 0 0 2
+    (by right; have := sampleSf_free; unfold sampleSf at this; rw [this]; decide)).2.1
+  have hold : skipAll { data := sampleChain, pos := 0, failAt := some 16 } 0 =
+      ({ data := sampleChain, pos := 16, failAt := some 16 }, .ok 17) :=
+    skip_all_complete sampleChain (some 16) 0 0 17 16 sampleChain_chain
+  unfold sampleSf
+  rw [h, hold]; rfl
+
+-- program order: the reader fails at byte 8 (the first read of the fragment header) and the 1-st
+-- seek would fail: the read comes first, its error is returned and only one seek call was made;
+-- with the reader failing at byte 15 (the read behind the 1-st seek) the seek comes first
+example : skipAllSf (sampleSf 8 (some 1)) 0 =
+    ({ rd := { data := sampleChain, pos := 8, failAt := some 8 }, seeks := 1, seekFail := some 1 },
+     .error (.io .injected)) := by
+  rw [skipAllSf_step (sampleSf 8 (some 1)) 0 (by decide)
+    { rd := { data := sampleChain, pos := 8, failAt := some 8 }, seeks := 1, seekFail := some 1 } 44 rfl]
+  exact skipAllSf_err _ 44 (by decide) _ _ rfl
+example : skipAllSf (sampleSf 15 (some 1)) 0 =
+    ({ rd := { data := sampleChain, pos := 9, failAt := some 15 }, seeks := 2, seekFail := some 1 },
+     .error .seek) := by
+  rw [skipAllSf_step (sampleSf 15 (some 1)) 0 (by decide)
+    { rd := { data := sampleChain, pos := 8, failAt := some 15 }, seeks := 1, seekFail := some 1 } 44 rfl]
+  exact skipAllSf_err _ 44 (by decide) _ _ rfl
+example : skipAllSf (sampleSf 15 (some 2)) 0 =
+    ({ rd := { data := sampleChain, pos := 15, failAt := some 15 }, seeks := 2, seekFail := some 2 },
+     .error (.io .injected)) := by
+  rw [skipAllSf_step (sampleSf 15 (some 2)) 0 (by decide)
+    { rd := { data := sampleChain, pos := 8, failAt := some 15 }, seeks := 1, seekFail := some 2 } 44 rfl]
+  exact skipAllSf_err _ 44 (by decide) _ _ rfl
 end
 
 -- the general builder: configurations of C10 satisfy the hypotheses (`ip(..)` with IPv4 options and
